@@ -245,7 +245,8 @@ Section UB.
       assert (HW : ubw (FCase t targs cls ty)).
       { intros G cont st s0 st' H0 Hf Hw Hc bb Hb. rewrite wc_unfold in H0. apply wc_case_inv in H0.
         destruct H0 as [cont1 [st0 [cls' [st1 [sty0 [Hsh [Hcls [Esty Hscrut]]]]]]]]. simpl in Hf, Hw.
-        apply andb_prop in Hf. destruct Hf as [Hf1 Hf2]. apply andb_prop in Hw. destruct Hw as [Hw1 Hw2].
+        apply andb_prop in Hf. destruct Hf as [Hf1 Hf2]. apply andb_prop in Hf1. destruct Hf1 as [Hf1 _].
+        apply andb_prop in Hw. destruct Hw as [Hw1 Hw2].
         assert (Hc1 : cont_cns cont1 /\ forall bb, In bb (fvt cont1) -> In bb (fvt cont)).
         { destruct (Nat.leb (List.length cls) 1 || cont_is_small cont);
             [destruct Hsh; subst; auto | eapply share_fvt; eauto]. }
